@@ -89,7 +89,12 @@ func (p *simplePool) Get() any {
 func (p *simplePool) Put(x any) { p.items = append(p.items, x) }
 
 // chunkReader hands out its chunks one Read at a time.
-type chunkReader struct{ chunks [][]byte }
+// chunkReader hands out its chunks one Read at a time; with eofWithLast the final
+// bytes come together with io.EOF, as the io.Reader contract allows.
+type chunkReader struct {
+	chunks      [][]byte
+	eofWithLast bool
+}
 
 func (c *chunkReader) Read(p []byte) (int, error) {
 	for len(c.chunks) > 0 && len(c.chunks[0]) == 0 {
@@ -100,6 +105,10 @@ func (c *chunkReader) Read(p []byte) (int, error) {
 	}
 	n := copy(p, c.chunks[0])
 	c.chunks[0] = c.chunks[0][n:]
+	if c.eofWithLast && len(c.chunks) == 1 && len(c.chunks[0]) == 0 {
+		c.chunks = nil
+		return n, io.EOF
+	}
 	return n, nil
 }
 
@@ -201,11 +210,11 @@ func (w *wconn) write(api, kind string, data []byte, chunks []int) (wire []byte,
 				err = wr.Close()
 			}
 		}
-	case "readfrom":
+	case "readfrom", "readfromeof":
 		var wr io.WriteCloser
 		wr, err = w.c.NextWriter(mt)
 		if err == nil {
-			_, err = wr.(io.ReaderFrom).ReadFrom(&chunkReader{splitBy(data, chunks)})
+			_, err = wr.(io.ReaderFrom).ReadFrom(&chunkReader{splitBy(data, chunks), api == "readfromeof"})
 			if err == nil {
 				err = wr.Close()
 			}
@@ -476,7 +485,7 @@ func famWTWrite(t *testing.T, r *Rec) {
 	if r.thorough() {
 		wbufs = append(wbufs, 4096, 70000, 127, 65527)
 	}
-	apis := []string{"msg", "stream", "readfrom", "prepared"}
+	apis := []string{"msg", "stream", "readfrom", "prepared", "readfromeof"}
 	hows := []string{"whole", "one", "random"}
 	for _, wbuf := range wbufs {
 		for _, server := range []bool{true, false} {
@@ -505,7 +514,7 @@ func famWTWrite(t *testing.T, r *Rec) {
 						kind := []string{"t", "b"}[r.rng.IntN(2)]
 						data := payload(r.rng, n)
 						var chunks []int
-						if api == "stream" || api == "readfrom" {
+						if api == "stream" || api == "readfrom" || api == "readfromeof" {
 							chunks = chunking(r.rng, n, hows[r.rng.IntN(len(hows))])
 						}
 						out := do(fmt.Sprintf("wt w %s %s %s %s", api, kind, hx(data), ints(chunks)))
@@ -515,6 +524,9 @@ func famWTWrite(t *testing.T, r *Rec) {
 						if want := "wire " + hx(specEncode(kind, data, formMin)); out != want {
 							r.Violate("C14", sigf("C14/encoder/%s/srv=%s/%s", api, b01(server), lenClass(n, wbuf)),
 								fmt.Sprintf("wire bytes of a %d-byte message differ from one spec frame: %.80s", n, out), replay)
+							// the same fact read as C01: a conformant WebTransport client does not receive this message intact
+							r.Violate("C01", sigf("C01/webtransport/wire/%s/srv=%s/%s", api, b01(server), lenClass(n, wbuf)),
+								fmt.Sprintf("a %d-byte message written to a WebTransport connection is not one Engine.IO frame on the wire: %.80s", n, out), replay)
 						}
 					}
 					// C13 monitor: the peer reads exactly the messages written
@@ -535,6 +547,8 @@ func famWTWrite(t *testing.T, r *Rec) {
 						}
 						r.Violate("C13", sigf("C13/roundtrip/srv=%s/pool=%s/%s", b01(server), b01(pool), cls),
 							fmt.Sprintf("peer read %d messages (end %s) for %d written", len(got), errc, len(sent)), replay)
+						r.Violate("C01", sigf("C01/webtransport/roundtrip/srv=%s/pool=%s/%s", b01(server), b01(pool), cls),
+							fmt.Sprintf("WebTransport peer read %d messages (end %s) for %d written", len(got), errc, len(sent)), replay)
 					}
 					if len(r.samples) < 3 && len(seq) > 1 && len(strings.Join(replay, ";")) < 2000 {
 						r.Sample(strings.Join(replay, " ; "))
@@ -860,6 +874,7 @@ func monitorRead(r *Rec, name string, valid bool, stream []byte, want []rmsg, bo
 		}
 		if !ok {
 			r.Violate("C14", "C14/decoder/valid", fmt.Sprintf("valid stream of %d frames decoded to %d messages", len(want), len(got)), replay)
+			r.Violate("C02", "C02/webtransport/decoder/valid", fmt.Sprintf("valid WebTransport stream of %d frames decoded to %d messages", len(want), len(got)), replay)
 		}
 	}
 }
